@@ -9,7 +9,7 @@ import tempfile
 
 import vlib
 
-ELEMS = {"TC1": 1, "TCS1": 2, "TC4": 4, "TC12": 12, "TC32": 32, "TR": 20, "NTR": 21, "PTT": 22, "PTN": 23}
+ELEMS = {"TC1": 1, "TCS1": 2, "TC4": 4, "TC12": 12, "TC32": 32, "TC300": 300, "TR": 20, "NTR": 21, "PTT": 22, "PTN": 23}
 ALLOCS = {"amc": 0, "std": 1, "ledgerstd": 2, "ledgerrealloc": 3, "ledgerbasic": 4}
 FLAV = {"vector": 0, "small": 1, "fixed": 2, "fixedu": 3}
 TRACKED = ("TR", "NTR", "PTT", "PTN")
@@ -57,6 +57,7 @@ def quick_matrix():
         inst("fixed", 2, "TR", st="uint8_t", L=2, K=2),
         inst("fixedu", 3, "TC4", st="uint8_t", L=3),
         inst("fixed", 4, "TC12", st="uint16_t", L=4, opts=["--few-ranges"]),
+        inst("small", 2, "TC300", K=2, L=2, opts=["--few-ranges", "--no-ctors"]),  # 300-byte elements (scratch buffers, byte counts)
     ]
 
 
@@ -86,13 +87,22 @@ def thorough_matrix():
     # larger inline capacity (kNbSlots = 8 for 1-byte elements: N=5 has no separate inline array)
     for el, st, al in (("TC1", "uint8_t", "ledgerstd"), ("TC4", "uint16_t", "amc"), ("TR", "int16_t", "ledgerrealloc"), ("NTR", "int32_t", "ledgerstd")):
         m.append(inst("small", 5, el, st=st, alloc=al, L=6, K=1, opts=["--few-ranges", "--no-ctors", "--no-alias"]))
-    # pool of two, to the fixpoint
+    # pool of two, to the fixpoint.  Measured (16 cores busy): K=2 L=3 with the reduced range menu needs 8-15 minutes per
+    # instantiation and SmallVector<3> K=2 L=3 does not finish in 40; so L=3 for N <= 2 / vector / fixed, L=2 with the full
+    # alphabet for N=3 (its inline-full states are reached by the single-vector instantiations above and by the E1s pairs)
+    fr = ["--few-ranges"]
     for el, al, st in (("TC4", "amc", "uint32_t"), ("TR", "ledgerrealloc", "uint8_t"), ("NTR", "ledgerstd", "uint16_t"), ("PTN", "ledgerbasic", "int32_t")):
-        m.append(inst("small", 2, el, st=st, alloc=al, K=2, L=3))
-        m.append(inst("small", 1, el, st=st, alloc=al, K=2, L=3, opts=["--few-ranges"]))
-        m.append(inst("small", 3, el, st=st, alloc=al, K=2, L=3, opts=["--few-ranges", "--no-ctors"]))
-        m.append(inst("vector", 0, el, st=st, alloc=al, K=2, L=3))
-        m.append(inst("fixed", 3, el, st="uint8_t", K=2, L=3, opts=["--few-ranges"]))
+        m.append(inst("small", 2, el, st=st, alloc=al, K=2, L=3, opts=fr))
+        m.append(inst("small", 1, el, st=st, alloc=al, K=2, L=3, opts=fr))
+        m.append(inst("vector", 0, el, st=st, alloc=al, K=2, L=3, opts=fr))
+        m.append(inst("fixed", 3, el, st="uint8_t", K=2, L=3, opts=fr))
+        m.append(inst("small", 3, el, st=st, alloc=al, K=2, L=2))
+        m.append(inst("small", 2, el, st=st, alloc=al, K=2, L=2))
+    # wide elements
+    m.append(inst("small", 2, "TC300", K=2, L=2, opts=fr))
+    m.append(inst("small", 3, "TC300", st="uint8_t", alloc="ledgerrealloc", L=4, opts=fr))
+    m.append(inst("fixed", 3, "TC300", st="uint8_t", L=3))
+    m.append(inst("vector", 0, "TC300", alloc="ledgerbasic", L=4, opts=fr))
     # C++20 (<=>, erase, erase_if); C++11/14 are covered by C16's replayer builds
     for el in ("TC4", "TR", "NTR"):
         m.append(inst("small", 2, el, std="c++20", alloc="ledgerstd", L=4))
@@ -109,7 +119,7 @@ class Eng:
 
 
 def _vcat(i):
-    return {"TC1": "TC", "TCS1": "TC", "TC4": "TC", "TC12": "TC", "TC32": "TC", "TR": "TR", "PTT": "TR", "NTR": "NTR", "PTN": "NTR"}[i["elem"]]
+    return {"TC1": "TC", "TCS1": "TC", "TC4": "TC", "TC12": "TC", "TC32": "TC", "TC300": "TC", "TR": "TR", "PTT": "TR", "NTR": "NTR", "PTN": "NTR"}[i["elem"]]
 
 
 def _vkind(i):
